@@ -580,6 +580,10 @@ def random_nested_case(rng):
             args = [] if m in ("spop", "clear") else ([leaf()] if m in ("add", "discard", "remove") else [lst(4)])
             if m in ("update", "difference_update", "intersection_update") and rng.random() < 0.5:
                 args = [lst(3), lst(3)]          # several iterables in one call
+            if m in ("ior", "ixor", "iand", "isub"):
+                args = args + [rng.choice(["set", "set", "frozenset"])]      # kind of the operand
+            elif m in ("update", "symmetric_difference_update", "intersection_update", "difference_update") and rng.random() < 0.4:
+                args = args + [rng.choice(["frozenset", "tuple", "gen", "set"])]
             ops.append([["st"], m, args])
         elif t == "dc":
             m = rng.choice(["dsetitem", "update", "ior", "setdefault", "dpop", "popitem", "clear"])
@@ -641,19 +645,30 @@ def _apply_nested(obj, path, m, args):
         target *= args[0]
     elif m == "ior":
         a0 = args[0]
-        target |= (dict((k, v) for k, v in a0) if path[0] in ("dl", "dc") else set(a0))
+        target |= (dict((k, v) for k, v in a0) if path[0] in ("dl", "dc") else _operand(args))
     elif m == "ixor":
-        target ^= set(args[0])
+        target ^= _operand(args)
     elif m == "iand":
-        target &= set(args[0])
+        target &= _operand(args)
     elif m == "isub":
-        target -= set(args[0])
+        target -= _operand(args)
+    elif path[0] == "st" and args and isinstance(args[-1], str):
+        kind = args[-1]
+        mk = {"frozenset": frozenset, "tuple": tuple, "set": set, "gen": lambda x: (y for y in list(x))}[kind]
+        getattr(target, m)(*[mk(a) for a in args[:-1]])
     elif m == "update" and path[0] in ("dl", "dc"):
         target.update([(k, v) for k, v in args[0]])
     elif m in ("dpop", "spop"):
         target.pop(*args)
     else:
         getattr(target, m)(*args)
+
+
+def _operand(args):
+    """operand of an in-place set operator: a set, or (trailing kind marker) a frozenset"""
+    if len(args) > 1 and args[-1] == "frozenset":
+        return frozenset(args[0])
+    return set(args[0])
 
 
 def run_nested(case):
